@@ -262,6 +262,12 @@ func (ex *Exec) evalBuiltin(e *ast.CallExpr, name string) Value {
 				}
 				return s.Abs.Len
 			}
+			if s.SymLen != nil {
+				if name == "len" {
+					return s.SymLen
+				}
+				ex.unsupported("cap of a slice of unknown length")
+			}
 			if name == "len" {
 				return ex.constOf(bi(int64(s.Len)), intT)
 			}
@@ -351,6 +357,7 @@ func (ex *Exec) reachedPanic(at ast.Node) {
 	if ex.fc != nil && ex.fc.Panics != nil {
 		// allowed when the contract's panic condition holds on entry
 		c := ex.entryCtx()
+		c.inOld = false // ghost state is read as of now; parameters are bound to their entry values anyway
 		cond := c.term(ex.fc.Panics.Expr)
 		ex.oblige("panic", "allowed@"+ex.where(at), cond, "panic reached only under ensures_panics condition")
 		ex.panicPaths++
